@@ -705,6 +705,10 @@ def run(ctx):
         mm = re.match(r"^([A-Za-z_][\w']*(?:\.[A-Za-z_][\w']*)+)\s*(:.*)?$", ln)
         if mm:
             ctx.axioms[mm.group(1)] = ctx.axioms.get(mm.group(1), 0) + 1
+    # 0b. static data-flow tie: mode_gamma.py regenerated as helper / loop flows and proved equal to the models
+    #     (after the axiom collection above, which resets ctx.axioms)
+    from props import modegamma_static
+    modegamma_static.static_tie(ctx, rd)
     ctx.extra["theorems"] = ["polyder_is_derive", "triple_consistent_poly", "power_law_exact", "interpolant_unique",
                              "lsq_poly_exact_upto_order", "lsq_power_law_exact", "loop_indexing", "plot_select_spec_iff",
                              "plot_select_refuted", "triple_consistent_oracle",
